@@ -10,11 +10,9 @@ Open Scope N_scope.
 
 (* ---------- what the state says about one message id ---------- *)
 Definition task_of (ts : list task) (i : id) : option task := find (fun t => task_id t =? i) ts.
-Definition deliv_of (s : state) (i : id) : list rcpt := map snd (filter (fun p => fst p =? i) (g_deliv s)).
-Definition fail_of (s : state) (i : id) : list (rcpt * bool) :=
-  map (fun p => (snd (fst p), snd p)) (filter (fun p => fst (fst p) =? i) (g_fail s)).
-Definition acc_of (s : state) (i : id) : list (rcpt * bool) :=
-  map (fun p => (snd (fst p), snd p)) (filter (fun p => fst (fst p) =? i) (g_acc s)).
+Definition deliv_l (l : list (id * rcpt)) (i : id) : list rcpt := map snd (filter (fun p => fst p =? i) l).
+Definition trip_l (l : list (id * rcpt * bool)) (i : id) : list (rcpt * bool) :=
+  map (fun p => (snd (fst p), snd p)) (filter (fun p => fst (fst p) =? i) l).
 
 Record descr := mkD {
   d_task : option task; d_act : bool; d_qi : bool; d_qd : bool; d_st : option msg;
@@ -22,7 +20,7 @@ Record descr := mkD {
 
 Definition D (s : state) (i : id) : descr :=
   mkD (task_of (s_tasks s) i) (mem i (s_active s)) (mem i (s_qids s)) (mem i (qids_of (s_queued s)))
-      (st_get (s_store s) i) (deliv_of s i) (fail_of s i) (acc_of s i).
+      (st_get (s_store s) i) (deliv_l (g_deliv s) i) (trip_l (g_fail s) i) (trip_l (g_acc s) i).
 
 Section Good.
   Variable nx : id.
@@ -158,10 +156,805 @@ Proof.
       * apply IH; [assumption|]. intro Hi. apply H2. right. exact Hi.
 Qed.
 
-Lemma filter_map_other : forall (A : Type) (f : A -> id) (mk : rcpt -> A) (i j : id) (rs : list rcpt) (l : list A),
-  (forall r, f (mk r) = i) -> i <> j ->
-  filter (fun p => f p =? j) (map mk rs ++ l) = filter (fun p => f p =? j) l.
+Lemma deliv_l_app : forall a b i, deliv_l (a ++ b) i = deliv_l a i ++ deliv_l b i.
+Proof. intros. unfold deliv_l. rewrite filter_app, map_app. reflexivity. Qed.
+Lemma trip_l_app : forall a b i, trip_l (a ++ b) i = trip_l a i ++ trip_l b i.
+Proof. intros. unfold trip_l. rewrite filter_app, map_app. reflexivity. Qed.
+
+Lemma deliv_l_new_same : forall i rs, deliv_l (map (fun r => (i, r)) rs) i = rs.
+Proof. intros i rs. unfold deliv_l. induction rs as [|r rs IH]; cbn; [reflexivity|]. rewrite N.eqb_refl. cbn. rewrite IH. reflexivity. Qed.
+Lemma deliv_l_new_other : forall i j rs, i <> j -> deliv_l (map (fun r => (i, r)) rs) j = [].
+Proof. intros i j rs H. unfold deliv_l. induction rs as [|r rs IH]; cbn; [reflexivity|]. destruct (N.eqb_spec i j); [contradiction|exact IH]. Qed.
+Lemma trip_l_new_same : forall i b rs, trip_l (map (fun r => (i, r, b)) rs) i = map (fun r => (r, b)) rs.
+Proof. intros i b rs. unfold trip_l. induction rs as [|r rs IH]; cbn; [reflexivity|]. rewrite N.eqb_refl. cbn. rewrite IH. reflexivity. Qed.
+Lemma trip_l_new_other : forall i j b rs, i <> j -> trip_l (map (fun r => (i, r, b)) rs) j = [].
+Proof. intros i j b rs H. unfold trip_l. induction rs as [|r rs IH]; cbn; [reflexivity|]. destruct (N.eqb_spec i j); [contradiction|exact IH]. Qed.
+
+Lemma D_eq : forall s s' j,
+  task_of (s_tasks s') j = task_of (s_tasks s) j -> mem j (s_active s') = mem j (s_active s) ->
+  mem j (s_qids s') = mem j (s_qids s) -> mem j (qids_of (s_queued s')) = mem j (qids_of (s_queued s)) ->
+  st_get (s_store s') j = st_get (s_store s) j -> deliv_l (g_deliv s') j = deliv_l (g_deliv s) j ->
+  trip_l (g_fail s') j = trip_l (g_fail s) j -> trip_l (g_acc s') j = trip_l (g_acc s) j ->
+  D s' j = D s j.
+Proof. intros s s' j E1 E2 E3 E4 E5 E6 E7 E8. unfold D. rewrite E1, E2, E3, E4, E5, E6, E7, E8. reflexivity. Qed.
+
+Lemma Linv_local : forall s s' i, Linv s -> s_next s <= s_next s' ->
+  (forall j, j <> i -> D s' j = D s j) -> good (s_next s') i (D s' i) ->
+  NoDup (all_ids (s_tasks s')) -> NoDup (qids_of (s_queued s')) -> Linv s'.
 Proof.
-  intros A f mk i j rs l Hf Hij. rewrite filter_app. induction rs as [|r rs IH]; cbn; [reflexivity|].
-  rewrite Hf. destruct (N.eqb_spec i j); [contradiction|exact IH].
+  intros s s' i H Hn Hf Hg N1 N2. constructor; [|exact N1|exact N2].
+  intro j. destruct (N.eq_dec j i) as [E|E]; [subst; exact Hg|]. rewrite (Hf j E).
+  apply (good_frame (s_next s)); [exact Hn|apply (l_good s H)].
+Qed.
+
+Lemma mem_cons_other : forall j i l, j <> i -> mem j (i :: l) = mem j l.
+Proof. intros j i l H. cbn. destruct (N.eqb_spec j i); [contradiction|reflexivity]. Qed.
+
+Lemma mem_qids_insort_other : forall j ts i q, j <> i -> mem j (qids_of (insort (ts, i) q)) = mem j (qids_of q).
+Proof.
+  intros j ts i q H. unfold qids_of. induction q as [|[t k] q IH]; cbn.
+  - destruct (N.eqb_spec j i); [contradiction|reflexivity].
+  - destruct (ts <? t); cbn.
+    + destruct (N.eqb_spec j i); [contradiction|reflexivity].
+    + rewrite IH. reflexivity.
+Qed.
+
+Lemma mem_qids_insort_same : forall ts i q, mem i (qids_of (insort (ts, i) q)) = true.
+Proof.
+  intros ts i q. unfold qids_of. induction q as [|[t k] q IH]; cbn.
+  - rewrite N.eqb_refl. reflexivity.
+  - destruct (ts <? t); cbn; [rewrite N.eqb_refl; reflexivity|rewrite IH; apply orb_true_r].
+Qed.
+
+Lemma qids_insort_nodup : forall ts i q, NoDup (qids_of q) -> ~ In i (qids_of q) -> NoDup (qids_of (insort (ts, i) q)).
+Proof.
+  intros ts i q. induction q as [|[t k] q IH]; intros Hn Hi; cbn.
+  - constructor; [intros []|constructor].
+  - destruct (ts <? t); cbn.
+    + constructor; assumption.
+    + cbn in Hn, Hi. inversion Hn; subst. constructor.
+      * intro Hk. assert (Hm : mem k (qids_of (insort (ts, i) q)) = true) by (apply mem_In; exact Hk).
+        rewrite mem_qids_insort_other in Hm by (intro; subst; apply Hi; left; reflexivity).
+        apply mem_In in Hm. contradiction.
+      * apply IH; [assumption|]. intro Hx. apply Hi. right. exact Hx.
+Qed.
+
+(* ---------- hypotheses on the environment: relay contract, fair announcements ---------- *)
+Definition covers_res (all : list rcpt) (res : list rres) : Prop :=
+  forall r, In r all -> In r (pick is_ok all res) \/ In r (pick is_perm all res) \/ In r (pick is_temp all res).
+
+Definition ev_ok (s : state) (e : event) : Prop :=
+  match e with
+  | EWrite _ rcpts _ => NoDup rcpts
+  | ERelay i (OPartial res) =>
+      forall snd rcpts n, task_of (s_tasks s) i = Some (TAttempt i snd rcpts n) -> covers_res rcpts res
+  | EAnnounce _ i =>
+      i < s_next s /\
+      match task_of (s_tasks s) i with
+      | Some (TEnq _ _ _) | Some (TRemove _) => False    (* not while its enqueue() or its removal is in progress *)
+      | _ => True
+      end
+  | _ => True
+  end.
+
+Fixpoint ok_run (es : list event) (s : state) : Prop :=
+  match es with
+  | [] => True
+  | e :: es' => ev_ok s e /\ ok_run es' (step s e)
+  end.
+
+(* ---------- facts about pick ---------- *)
+Lemma pick_In : forall p rs res r, In r (pick p rs res) -> In r rs.
+Proof.
+  induction rs as [|x rs IH]; intros res r H; cbn in H; [destruct H|].
+  destruct (p match res with [] => RJunk | y :: _ => y end); [destruct H as [H|H]; [left; exact H|right; apply (IH _ _ H)]|right; apply (IH _ _ H)].
+Qed.
+
+Lemma pick_split : forall p rs res r, In r rs -> In r (pick p rs res) \/ In r (pick (fun x => negb (p x)) rs res).
+Proof.
+  induction rs as [|x rs IH]; intros res r H; [destruct H|]. cbn.
+  destruct (p match res with [] => RJunk | y :: _ => y end) eqn:E; cbn; destruct H as [H|H].
+  - left. left. exact H.
+  - destruct (IH match res with [] => [] | _ :: t => t end r H) as [A|A]; [left; right; exact A|right; exact A].
+  - right. left. exact H.
+  - destruct (IH match res with [] => [] | _ :: t => t end r H) as [A|A]; [left; exact A|right; right; exact A].
+Qed.
+
+Lemma pick_disjoint : forall p q rs res r, NoDup rs -> (forall x, p x = true -> q x = true -> False) ->
+  In r (pick p rs res) -> In r (pick q rs res) -> False.
+Proof.
+  induction rs as [|x rs IH]; intros res r Hn Hpq Hp Hq; cbn in *; [destruct Hp|].
+  inversion Hn as [|? ? Hx Hn']; subst.
+  set (y := match res with [] => RJunk | y :: _ => y end) in *.
+  set (res' := match res with [] => [] | _ :: t => t end) in *.
+  destruct (p y) eqn:Ep; destruct (q y) eqn:Eq.
+  - exact (Hpq y Ep Eq).
+  - destruct Hp as [Hp|Hp]; [subst; apply Hx; apply (pick_In _ _ _ _ Hq)|apply (IH res' r Hn' Hpq Hp Hq)].
+  - destruct Hq as [Hq|Hq]; [subst; apply Hx; apply (pick_In _ _ _ _ Hp)|apply (IH res' r Hn' Hpq Hp Hq)].
+  - apply (IH res' r Hn' Hpq Hp Hq).
+Qed.
+
+Lemma pick_nodup : forall p rs res, NoDup rs -> NoDup (pick p rs res).
+Proof.
+  induction rs as [|x rs IH]; intros res Hn; cbn; [constructor|]. inversion Hn; subst.
+  destruct (p match res with [] => RJunk | y :: _ => y end); [constructor; [intro Hi; apply pick_In in Hi; contradiction|apply IH; assumption]|apply IH; assumption].
+Qed.
+
+Lemma not_settled_neg : forall x, not_settled x = negb (is_settled x).
+Proof. reflexivity. Qed.
+
+Lemma settled_ok_perm : forall rs res r, In r (pick is_settled rs res) -> In r (pick is_ok rs res) \/ In r (pick is_perm rs res).
+Proof.
+  induction rs as [|x rs IH]; intros res r H; cbn in *; [destruct H|].
+  set (y := match res with [] => RJunk | y :: _ => y end) in *.
+  destruct y; cbn in *.
+  - destruct H as [H|H]; [left; left; exact H|destruct (IH _ _ H) as [A|A]; [left; right; exact A|right; exact A]].
+  - destruct H as [H|H]; [right; left; exact H|destruct (IH _ _ H) as [A|A]; [left; exact A|right; right; exact A]].
+  - apply IH. exact H.
+  - apply IH. exact H.
+Qed.
+
+Lemma In_map_pair : forall (r : rcpt) (b : bool) rs, In (r, b) (map (fun x => (x, b)) rs) <-> In r rs.
+Proof.
+  intros r b rs. rewrite in_map_iff. split.
+  - intros [x [E Hx]]. inversion E; subst. exact Hx.
+  - intro H. exists r. split; [reflexivity|exact H].
+Qed.
+
+Lemma In_map_pair_any : forall (r : rcpt) (b b' : bool) rs, In (r, b) (map (fun x => (x, b')) rs) -> In r rs /\ b = b'.
+Proof. intros r b b' rs H. apply in_map_iff in H. destruct H as [x [E Hx]]. inversion E; subst. tauto. Qed.
+
+(* ---------- per-case preservation lemmas ---------- *)
+Ltac Dnorm :=
+  unfold D; proj; rewrite ?aq_tasks, ?aq_active, ?aq_store, ?aq_deliv, ?aq_fail, ?aq_acc;
+  cbn [d_task d_act d_qi d_qd d_st d_dl d_fl d_ac].
+Ltac Dcbn := cbn [d_task d_act d_qi d_qd d_st d_dl d_fl d_ac].
+Ltac Dcbn_in H := cbn [d_task d_act d_qi d_qd d_st d_dl d_fl d_ac] in H.
+
+(* what the invariant says at the id of a task that is in the list *)
+Lemma at_member : forall s l1 t l2, Linv s -> s_tasks s = l1 ++ t :: l2 ->
+  let i := task_id t in
+  NoDup (all_ids (l1 ++ t :: l2)) /\ task_of (s_tasks s) i = Some t /\ good (s_next s) i (D s i).
+Proof.
+  intros s l1 t l2 H E1 i. pose proof (l_tasks_nodup s H) as Nd. rewrite E1 in Nd.
+  split; [exact Nd|]. split; [rewrite E1; apply task_of_member; exact Nd|apply (l_good s H)].
+Qed.
+
+Ltac frame_tasks E1 Hj :=
+  rewrite E1; apply task_of_rest_other; [cbn; congruence|]; intros x Hx;
+  repeat (destruct Hx as [Hx|Hx]; [subst x; cbn; congruence|]); destruct Hx.
+
+Ltac fr Hj :=
+  first [ reflexivity
+        | apply mem_del_other; exact Hj
+        | apply mem_cons_other; exact Hj
+        | apply st_get_upd_other; exact Hj
+        | apply st_get_del_other; exact Hj
+        | (rewrite deliv_l_app, deliv_l_new_other by congruence; reflexivity)
+        | (rewrite trip_l_app, trip_l_new_other by congruence; reflexivity)
+        | (rewrite deliv_l_app, deliv_l_new_other, trip_l_app, trip_l_new_other by congruence; reflexivity) ].
+
+Lemma touched_task : forall d t, d_task d = Some t -> touched d.
+Proof. intros d t H. left. rewrite H. discriminate. Qed.
+
+(* ERelay: whole-message outcomes *)
+Lemma L_relay_ok : forall s i snd rcpts n l1 l2,
+  Linv s -> s_tasks s = l1 ++ TAttempt i snd rcpts n :: l2 ->
+  Linv (q_remove (log_deliv (set_tasks s (l1 ++ l2)) i rcpts) i).
+Proof.
+  intros s i snd rcpts n l1 l2 H E1.
+  destruct (at_member s l1 _ l2 H E1) as [Nd [Htk G]]. cbn [task_id] in Htk, G.
+  destruct G as [q1 q2 gs gn gf gl gp]. unfold phase_ok in gp. unfold D in q1, q2, gs, gn, gf, gl, gp. Dcbn_in q1. Dcbn_in q2. Dcbn_in gs. Dcbn_in gn. Dcbn_in gl. Dcbn_in gp.
+  rewrite Htk in gp. destruct gp as [Pa [Pq [m [Pst [Prc [Psn Pun]]]]]].
+  apply (Linv_local s _ i H).
+  - proj. lia.
+  - intros j Hj. apply D_eq; proj; [frame_tasks E1 Hj|fr Hj|fr Hj|fr Hj|fr Hj|fr Hj|fr Hj|fr Hj].
+  - Dnorm. rewrite (task_of_rest_same l1 (TAttempt i snd rcpts n) l2 [TRemove i] Nd : task_of ((l1 ++ l2) ++ [TRemove i]) i = _).
+    unfold task_of. cbn [find task_id]. rewrite N.eqb_refl.
+    rewrite !mem_del_same. rewrite deliv_l_app, deliv_l_new_same.
+    constructor; Dcbn.
+    + intro Hq. rewrite Pq in Hq. discriminate.
+    + discriminate.
+    + exact gs.
+    + exact gn.
+    + intros _. apply gf. apply (touched_task _ (TAttempt i snd rcpts n)). exact Htk.
+    + intros r sf Hr. destruct (gl r sf Hr) as [A|[A|[m' [A1 A2]]]].
+      * left. apply in_app_iff. right. exact A.
+      * right. left. exact A.
+      * left. apply in_app_iff. left. rewrite Pst in A1. inversion A1; subst m'. rewrite Prc in A2. exact A2.
+    + unfold phase_ok. Dcbn. split; [reflexivity|]. split; [exact Pq|].
+      unfold all_settled. Dcbn. intros r sf Hr. destruct (gl r sf Hr) as [A|[A|[m' [A1 A2]]]].
+      * left. apply in_app_iff. right. exact A.
+      * right. exact A.
+      * left. apply in_app_iff. left. rewrite Pst in A1. inversion A1; subst m'. rewrite Prc in A2. exact A2.
+  - proj. apply (nodup_rest_nt l1 (TAttempt i snd rcpts n) l2 [TRemove i] Nd). right. exists (TRemove i). split; reflexivity.
+  - proj. apply (l_queued_nodup s H).
+Qed.
+
+Lemma L_relay_perm : forall s i snd rcpts n l1 l2,
+  Linv s -> s_tasks s = l1 ++ TAttempt i snd rcpts n :: l2 ->
+  Linv (q_remove (log_fail (set_tasks s (l1 ++ l2)) i rcpts snd) i).
+Proof.
+  intros s i snd rcpts n l1 l2 H E1.
+  destruct (at_member s l1 _ l2 H E1) as [Nd [Htk G]]. cbn [task_id] in Htk, G.
+  destruct G as [q1 q2 gs gn gf gl gp]. unfold phase_ok in gp. unfold D in q1, q2, gs, gn, gf, gl, gp. Dcbn_in q1. Dcbn_in q2. Dcbn_in gs. Dcbn_in gn. Dcbn_in gl. Dcbn_in gp.
+  rewrite Htk in gp. destruct gp as [Pa [Pq [m [Pst [Prc [Psn Pun]]]]]].
+  apply (Linv_local s _ i H).
+  - proj. lia.
+  - intros j Hj. apply D_eq; proj; [frame_tasks E1 Hj|fr Hj|fr Hj|fr Hj|fr Hj|fr Hj|fr Hj|fr Hj].
+  - Dnorm. rewrite (task_of_rest_same l1 (TAttempt i snd rcpts n) l2 [TRemove i] Nd : task_of ((l1 ++ l2) ++ [TRemove i]) i = _).
+    unfold task_of. cbn [find task_id]. rewrite N.eqb_refl.
+    rewrite !mem_del_same. rewrite trip_l_app, trip_l_new_same.
+    assert (Hall : forall r sf, In (r, sf) (trip_l (g_acc s) i) ->
+              In r (deliv_l (g_deliv s) i) \/ In (r, sf) (map (fun r0 => (r0, snd)) rcpts ++ trip_l (g_fail s) i)).
+    { intros r sf Hr. destruct (gl r sf Hr) as [A|[A|[m' [A1 A2]]]].
+      - left. exact A.
+      - right. apply in_app_iff. right. exact A.
+      - right. apply in_app_iff. left. rewrite Pst in A1. inversion A1; subst m'. rewrite Prc in A2.
+        rewrite <- (gs m Pst r sf Hr), Psn. apply In_map_pair. exact A2. }
+    constructor; Dcbn.
+    + intro Hq. rewrite Pq in Hq. discriminate.
+    + discriminate.
+    + exact gs.
+    + exact gn.
+    + intros _. apply gf. apply (touched_task _ (TAttempt i snd rcpts n)). exact Htk.
+    + intros r sf Hr. destruct (Hall r sf Hr) as [A|A]; [left; exact A|right; left; exact A].
+    + unfold phase_ok. Dcbn. split; [reflexivity|]. split; [exact Pq|]. unfold all_settled. Dcbn. exact Hall.
+  - proj. apply (nodup_rest_nt l1 (TAttempt i snd rcpts n) l2 [TRemove i] Nd). right. exists (TRemove i). split; reflexivity.
+  - proj. apply (l_queued_nodup s H).
+Qed.
+
+Lemma L_relay_temp : forall s i snd rcpts n l1 l2,
+  Linv s -> s_tasks s = l1 ++ TAttempt i snd rcpts n :: l2 ->
+  Linv (set_tasks (set_tasks s (l1 ++ l2)) ((l1 ++ l2) ++ [TRetry1 i snd rcpts None])).
+Proof.
+  intros s i snd rcpts n l1 l2 H E1.
+  destruct (at_member s l1 _ l2 H E1) as [Nd [Htk G]]. cbn [task_id] in Htk, G.
+  destruct G as [q1 q2 gs gn gf gl gp]. unfold phase_ok in gp. unfold D in q1, q2, gs, gn, gf, gl, gp. Dcbn_in q1. Dcbn_in q2. Dcbn_in gs. Dcbn_in gn. Dcbn_in gl. Dcbn_in gp.
+  rewrite Htk in gp. destruct gp as [Pa [Pq [m [Pst [Prc [Psn Pun]]]]]].
+  apply (Linv_local s _ i H).
+  - proj. lia.
+  - intros j Hj. apply D_eq; proj; [frame_tasks E1 Hj|fr Hj|fr Hj|fr Hj|fr Hj|fr Hj|fr Hj|fr Hj].
+  - Dnorm. rewrite (task_of_rest_same l1 (TAttempt i snd rcpts n) l2 [TRetry1 i snd rcpts None] Nd : task_of ((l1 ++ l2) ++ [TRetry1 i snd rcpts None]) i = _).
+    unfold task_of. cbn [find task_id]. rewrite N.eqb_refl.
+    constructor; Dcbn; [exact q1|exact q2|exact gs|exact gn| |exact gl| ].
+    + intros _. apply gf. apply (touched_task _ (TAttempt i snd rcpts n)). exact Htk.
+    + unfold phase_ok. Dcbn. split; [exact Pa|]. split; [exact Pq|]. exists m. auto.
+  - proj. apply (nodup_rest_nt l1 (TAttempt i snd rcpts n) l2 [TRetry1 i snd rcpts None] Nd). right. eexists. split; reflexivity.
+  - proj. apply (l_queued_nodup s H).
+Qed.
+
+(* ERelay: per-recipient outcome *)
+Lemma L_relay_partial : forall s i snd rcpts n l1 l2 res,
+  Linv s -> s_tasks s = l1 ++ TAttempt i snd rcpts n :: l2 -> covers_res rcpts res ->
+  let s2 := log_fail (log_deliv (set_tasks s (l1 ++ l2)) i (pick is_ok rcpts res)) i (pick is_perm rcpts res) snd in
+  Linv (match pick is_temp rcpts res with
+        | [] => set_tasks s2 ((l1 ++ l2) ++ [TPartialRemove i])
+        | temps => set_tasks s2 ((l1 ++ l2) ++ [TRetry1 i snd temps (Some (rcpts, res))])
+        end).
+Proof.
+  intros s i snd rcpts n l1 l2 res H E1 Hcov s2.
+  destruct (at_member s l1 _ l2 H E1) as [Nd [Htk G]]. cbn [task_id] in Htk, G.
+  destruct G as [q1 q2 gs gn gf gl gp]. unfold phase_ok in gp. unfold D in q1, q2, gs, gn, gf, gl, gp. Dcbn_in q1. Dcbn_in q2. Dcbn_in gs. Dcbn_in gn. Dcbn_in gl. Dcbn_in gp.
+  rewrite Htk in gp. destruct gp as [Pa [Pq [m [Pst [Prc [Psn Pun]]]]]].
+  assert (Hnd : NoDup rcpts) by (rewrite <- Prc; apply (gn m Pst)).
+  set (dl' := pick is_ok rcpts res ++ deliv_l (g_deliv s) i).
+  set (fl' := map (fun r0 => (r0, snd)) (pick is_perm rcpts res) ++ trip_l (g_fail s) i).
+  assert (Hloss : forall r sf, In (r, sf) (trip_l (g_acc s) i) ->
+            In r dl' \/ In (r, sf) fl' \/ exists m0, st_get (s_store s) i = Some m0 /\ In r (m_rcpts m0)).
+  { intros r sf Hr. destruct (gl r sf Hr) as [A|[A|A]].
+    - left. apply in_app_iff. right. exact A.
+    - right. left. apply in_app_iff. right. exact A.
+    - right. right. exact A. }
+  assert (Hplog : (forall r, In r (pick is_ok rcpts res) -> In r dl') /\
+                  (forall r, In r (pick is_perm rcpts res) -> In (r, snd) fl')).
+  { split; intros r Hr; apply in_app_iff; left; [exact Hr|apply In_map_pair; exact Hr]. }
+  assert (Huns : forall r, In r (unsettled rcpts res) -> ~ In r dl' /\ forall b, ~ In (r, b) fl').
+  { intros r Hr. assert (Hin : In r rcpts) by (apply (pick_In _ _ _ _ Hr)).
+    destruct (Pun r Hin) as [U1 U2]. Dcbn_in U1. Dcbn_in U2. split.
+    - intro Hx. apply in_app_iff in Hx. destruct Hx as [Hx|Hx]; [|exact (U1 Hx)].
+      apply (pick_disjoint not_settled is_ok rcpts res r Hnd); [intros x; destruct x; cbn; discriminate|exact Hr|exact Hx].
+    - intros b Hx. apply in_app_iff in Hx. destruct Hx as [Hx|Hx]; [|exact (U2 b Hx)].
+      apply In_map_pair_any in Hx. destruct Hx as [Hx _].
+      apply (pick_disjoint not_settled is_perm rcpts res r Hnd); [intros x; destruct x; cbn; discriminate|exact Hr|exact Hx]. }
+  assert (Hframe : forall nt, (forall x, In x nt -> task_id x = i) -> forall j, j <> i ->
+            D (set_tasks s2 ((l1 ++ l2) ++ nt)) j = D s j).
+  { intros nt Hnt j Hj. apply D_eq; subst s2; proj; [|fr Hj|fr Hj|fr Hj|fr Hj|fr Hj|fr Hj|fr Hj].
+    rewrite E1. apply task_of_rest_other; [cbn; congruence|]. intros x Hx. rewrite (Hnt x Hx). congruence. }
+  destruct (pick is_temp rcpts res) as [|r0 temps] eqn:Et.
+  - apply (Linv_local s _ i H).
+    + subst s2. proj. lia.
+    + apply Hframe. intros x [Hx|[]]. subst x. reflexivity.
+    + subst s2. Dnorm. rewrite (task_of_rest_same l1 (TAttempt i snd rcpts n) l2 [TPartialRemove i] Nd : task_of ((l1 ++ l2) ++ [TPartialRemove i]) i = _).
+      unfold task_of. cbn [find task_id]. rewrite N.eqb_refl.
+      rewrite deliv_l_app, deliv_l_new_same, trip_l_app, trip_l_new_same. fold dl' fl'.
+      assert (Hall : forall r sf, In (r, sf) (trip_l (g_acc s) i) -> In r dl' \/ In (r, sf) fl').
+      { intros r sf Hr. destruct (Hloss r sf Hr) as [A|[A|[m' [A1 A2]]]]; [left; exact A|right; exact A|].
+        rewrite Pst in A1. inversion A1; subst m'. rewrite Prc in A2.
+        destruct (Hcov r A2) as [C|[C|C]].
+        - left. apply (proj1 Hplog). exact C.
+        - right. rewrite <- (gs m Pst r sf Hr), Psn. apply (proj2 Hplog). exact C.
+        - rewrite Et in C. destruct C. }
+      constructor; Dcbn; [exact q1|exact q2|exact gs|exact gn| | | ].
+      * intros _. apply gf. apply (touched_task _ (TAttempt i snd rcpts n)). exact Htk.
+      * intros r sf Hr. destruct (Hall r sf Hr) as [A|A]; [left; exact A|right; left; exact A].
+      * unfold phase_ok. Dcbn. split; [exact Pa|]. split; [exact Pq|]. unfold all_settled. Dcbn. exact Hall.
+    + subst s2. proj. apply (nodup_rest_nt l1 (TAttempt i snd rcpts n) l2 [TPartialRemove i] Nd). right. eexists. split; reflexivity.
+    + subst s2. proj. apply (l_queued_nodup s H).
+  - apply (Linv_local s _ i H).
+    + subst s2. proj. lia.
+    + apply Hframe. intros x [Hx|[]]. subst x. reflexivity.
+    + subst s2. Dnorm.
+      rewrite (task_of_rest_same l1 (TAttempt i snd rcpts n) l2 [TRetry1 i snd (r0 :: temps) (Some (rcpts, res))] Nd
+               : task_of ((l1 ++ l2) ++ [TRetry1 i snd (r0 :: temps) (Some (rcpts, res))]) i = _).
+      unfold task_of. cbn [find task_id]. rewrite N.eqb_refl.
+      rewrite deliv_l_app, deliv_l_new_same, trip_l_app, trip_l_new_same. fold dl' fl'.
+      constructor; Dcbn; [exact q1|exact q2|exact gs|exact gn| |exact Hloss| ].
+      * intros _. apply gf. apply (touched_task _ (TAttempt i snd rcpts n)). exact Htk.
+      * unfold phase_ok. Dcbn. split; [exact Pa|]. split; [exact Pq|]. exists m.
+        split; [exact Pst|]. split; [exact Prc|]. split; [exact Psn|]. split; [symmetry; exact Et|].
+        split; [exact Hcov|]. split; [unfold part_logged; Dcbn; exact Hplog|]. unfold unsettled_all. Dcbn. exact Huns.
+    + subst s2. proj. apply (nodup_rest_nt l1 (TAttempt i snd rcpts n) l2 [TRetry1 i snd (r0 :: temps) (Some (rcpts, res))] Nd). right. eexists. split; reflexivity.
+    + subst s2. proj. apply (l_queued_nodup s H).
+Qed.
+
+(* ---------- EStep: the retry path ---------- *)
+Definition keeps (f : msg -> msg) : Prop := forall m, m_sender (f m) = m_sender m /\ m_rcpts (f m) = m_rcpts m.
+
+Lemma aq_new : forall s ts i, mem i (s_qids s) = false -> mem i (s_active s) = false ->
+  add_queued s ts i =
+  mkState (s_store s) (insort (ts, i) (s_queued s)) (i :: s_qids s) (s_active s) (s_tasks s)
+          (notified (s_sched s)) true (s_clock s) (s_next s) (g_acc s) (g_deliv s) (g_fail s) (g_atts s) (g_removed s).
+Proof. intros s ts i H1 H2. unfold add_queued. rewrite H1, H2. reflexivity. Qed.
+
+Lemma not_qd_not_in : forall q i, mem i (qids_of q) = false -> ~ In i (qids_of q).
+Proof. intros q i H. apply mem_false_In. exact H. Qed.
+
+(* retry bookkeeping continues: the task of i is replaced by another retry task, the store entry
+   changes by f which keeps sender and recipients *)
+Lemma L_step_continue : forall s i t t' l1 l2 f,
+  Linv s -> s_tasks s = l1 ++ t :: l2 -> task_id t = i -> task_id t' = i -> keeps f ->
+  (forall m, st_get (s_store s) i = Some m ->
+     phase_ok (D s i) -> d_task (D s i) = Some t ->
+     phase_ok (mkD (Some t') (mem i (s_active s)) (mem i (s_qids s)) (mem i (qids_of (s_queued s)))
+                   (Some (f m)) (deliv_l (g_deliv s) i) (trip_l (g_fail s) i) (trip_l (g_acc s) i))) ->
+  st_get (s_store s) i <> None ->
+  Linv (set_tasks (set_store (set_tasks s (l1 ++ l2)) (st_upd (s_store s) i f)) ((l1 ++ l2) ++ [t'])).
+Proof.
+  intros s i t t' l1 l2 f H E1 Ei Ei' Hk Hph Hst.
+  destruct (at_member s l1 _ l2 H E1) as [Nd [Htk G]]. rewrite Ei in Htk, G.
+  destruct G as [q1 q2 gs gn gf gl gp].
+  destruct (st_get (s_store s) i) as [m|] eqn:Eg; [|contradiction].
+  apply (Linv_local s _ i H).
+  - proj. lia.
+  - intros j Hj. apply D_eq; proj; [|fr Hj|fr Hj|fr Hj|fr Hj|fr Hj|fr Hj|fr Hj].
+    rewrite E1. apply task_of_rest_other; [congruence|]. intros x [Hx|[]]. subst x. congruence.
+  - Dnorm. pose proof (task_of_rest_same l1 t l2 [t'] Nd) as R. rewrite Ei in R. rewrite R.
+    unfold task_of. cbn [find]. rewrite Ei', N.eqb_refl. rewrite st_get_upd_same, Eg. cbn [option_map].
+    unfold D in q1, q2, gs, gn, gf, gl. Dcbn_in q1. Dcbn_in q2. Dcbn_in gs. Dcbn_in gn. Dcbn_in gl.
+    destruct (Hk m) as [K1 K2].
+    constructor; Dcbn; [exact q1|exact q2| | | | | ].
+    + intros m' Em r sf Hr. inversion Em; subst m'. rewrite K1. apply (gs m Eg r sf Hr).
+    + intros m' Em. inversion Em; subst m'. rewrite K2. apply (gn m Eg).
+    + intros _. apply gf. apply (touched_task _ t). unfold D. Dcbn. exact Htk.
+    + intros r sf Hr. destruct (gl r sf Hr) as [A|[A|[m' [A1 A2]]]]; [left; exact A|right; left; exact A|].
+      right. right. exists (f m). split; [reflexivity|]. rewrite Eg in A1. inversion A1; subst m'. rewrite K2. exact A2.
+    + apply (Hph m eq_refl gp). unfold D. Dcbn. exact Htk.
+  - proj. apply (nodup_rest_nt l1 t l2 [t'] Nd). right. exists t'. split; [reflexivity|congruence].
+  - proj. apply (l_queued_nodup s H).
+Qed.
+
+(* retry exhausted: the transiently failed recipients are failed for good, the message is removed *)
+Lemma L_step_exhaust : forall s i snd rc dl l1 l2 f,
+  Linv s -> s_tasks s = l1 ++ TRetry1 i snd rc dl :: l2 -> keeps f -> st_get (s_store s) i <> None ->
+  Linv (q_remove (log_fail (set_store (set_tasks s (l1 ++ l2)) (st_upd (s_store s) i f)) i rc snd) i).
+Proof.
+  intros s i snd rc dl l1 l2 f H E1 Hk Hst.
+  destruct (at_member s l1 _ l2 H E1) as [Nd [Htk G]]. cbn [task_id] in Htk, G.
+  destruct G as [q1 q2 gs gn gf gl gp]. unfold phase_ok in gp. unfold D in q1, q2, gs, gn, gf, gl, gp. Dcbn_in q1. Dcbn_in q2. Dcbn_in gs. Dcbn_in gn. Dcbn_in gl. Dcbn_in gp.
+  rewrite Htk in gp.
+  destruct (st_get (s_store s) i) as [m|] eqn:Eg; [|contradiction]. destruct (Hk m) as [K1 K2].
+  set (fl' := map (fun r0 => (r0, snd)) rc ++ trip_l (g_fail s) i).
+  assert (Hall : forall r sf, In (r, sf) (trip_l (g_acc s) i) -> In r (deliv_l (g_deliv s) i) \/ In (r, sf) fl').
+  { intros r sf Hr. pose proof (gs m eq_refl r sf Hr) as Hsf.
+    destruct (gl r sf Hr) as [A|[A|[m' [A1 A2]]]]; [left; exact A|right; apply in_app_iff; right; exact A|].
+    inversion A1; subst m'.
+    destruct dl as [[all res]|].
+    - destruct gp as [Pa [Pq [m1 [Pst [Prc [Psn [Erc [Hcov [[Lok Lperm] Pun]]]]]]]]]. inversion Pst; subst m1.
+      rewrite Prc in A2. destruct (Hcov r A2) as [C|[C|C]].
+      + left. apply Lok. exact C.
+      + right. apply in_app_iff. right. rewrite <- Hsf, Psn. apply Lperm. exact C.
+      + right. apply in_app_iff. left. rewrite <- Hsf, Psn. apply In_map_pair. rewrite Erc. exact C.
+    - destruct gp as [Pa [Pq [m1 [Pst [Prc [Psn Pun]]]]]]. inversion Pst; subst m1.
+      right. apply in_app_iff. left. rewrite <- Hsf, Psn. apply In_map_pair. rewrite <- Prc. exact A2. }
+  assert (Pq : mem i (qids_of (s_queued s)) = false) by (destruct dl as [[all res]|]; tauto).
+  apply (Linv_local s _ i H).
+  - proj. lia.
+  - intros j Hj. apply D_eq; proj; [frame_tasks E1 Hj|fr Hj|fr Hj|fr Hj|fr Hj|fr Hj|fr Hj|fr Hj].
+  - Dnorm. rewrite (task_of_rest_same l1 (TRetry1 i snd rc dl) l2 [TRemove i] Nd : task_of ((l1 ++ l2) ++ [TRemove i]) i = _).
+    unfold task_of. cbn [find task_id]. rewrite N.eqb_refl.
+    rewrite !mem_del_same. rewrite st_get_upd_same, Eg. cbn [option_map]. rewrite trip_l_app, trip_l_new_same. fold fl'.
+    constructor; Dcbn.
+    + intro Hq. rewrite Pq in Hq. discriminate.
+    + discriminate.
+    + intros m' Em r sf Hr. inversion Em; subst m'. rewrite K1. apply (gs m eq_refl r sf Hr).
+    + intros m' Em. inversion Em; subst m'. rewrite K2. apply (gn m eq_refl).
+    + intros _. apply gf. apply (touched_task _ (TRetry1 i snd rc dl)). exact Htk.
+    + intros r sf Hr. destruct (Hall r sf Hr) as [A|A]; [left; exact A|right; left; exact A].
+    + unfold phase_ok. Dcbn. split; [reflexivity|]. split; [exact Pq|]. unfold all_settled. Dcbn. exact Hall.
+  - proj. apply (nodup_rest_nt l1 (TRetry1 i snd rc dl) l2 [TRemove i] Nd). right. eexists. split; reflexivity.
+  - proj. apply (l_queued_nodup s H).
+Qed.
+
+(* last step of the retry path: the store entry changes by f (its recipients become rc'),
+   the id leaves active_ids and enters the timetable *)
+Lemma L_step_final : forall s i t l1 l2 f when rc',
+  Linv s -> s_tasks s = l1 ++ t :: l2 -> task_id t = i ->
+  (forall m, m_sender (f m) = m_sender m) ->
+  (forall m, st_get (s_store s) i = Some m -> phase_ok (D s i) -> d_task (D s i) = Some t ->
+     d_qd (D s i) = false /\ m_rcpts (f m) = rc' /\ NoDup rc' /\
+     (forall r, In r rc' -> ~ In r (deliv_l (g_deliv s) i) /\ forall b, ~ In (r, b) (trip_l (g_fail s) i)) /\
+     (forall r sf, In (r, sf) (trip_l (g_acc s) i) -> In r (m_rcpts m) ->
+        In r rc' \/ In r (deliv_l (g_deliv s) i) \/ In (r, sf) (trip_l (g_fail s) i))) ->
+  st_get (s_store s) i <> None ->
+  let s1 := set_store (set_tasks s (l1 ++ l2)) (st_upd (s_store s) i f) in
+  Linv (add_queued (set_active s1 (del i (s_active s1))) when i).
+Proof.
+  intros s i t l1 l2 f when rc' H E1 Ei Hsn Hph Hst s1.
+  destruct (at_member s l1 _ l2 H E1) as [Nd [Htk G]]. rewrite Ei in Htk, G.
+  destruct G as [q1 q2 gs gn gf gl gp].
+  destruct (st_get (s_store s) i) as [m|] eqn:Eg; [|contradiction].
+  assert (HtkD : d_task (D s i) = Some t) by (unfold D; Dcbn; exact Htk).
+  destruct (Hph m eq_refl gp HtkD) as [Pq [Prc [Pnd [Pun Pcov]]]].
+  unfold D in q1, q2, gs, gn, gf, gl, Pq. Dcbn_in q1. Dcbn_in q2. Dcbn_in gs. Dcbn_in gn. Dcbn_in gl. Dcbn_in Pq.
+  assert (Pqi : mem i (s_qids s) = false).
+  { destruct (mem i (s_qids s)) eqn:E; [|reflexivity]. rewrite (q2 eq_refl) in Pq. discriminate. }
+  rewrite aq_new; [|subst s1; proj; exact Pqi|subst s1; proj; apply mem_del_same].
+  subst s1. proj.
+  apply (Linv_local s _ i H).
+  - proj. lia.
+  - intros j Hj. apply D_eq; proj; [| fr Hj | fr Hj | apply mem_qids_insort_other; exact Hj |fr Hj|fr Hj|fr Hj|fr Hj].
+    rewrite E1. rewrite <- (app_nil_r (l1 ++ l2)). apply task_of_rest_other; [congruence|intros x []].
+  - unfold D. proj. Dcbn.
+    pose proof (task_of_rest_same l1 t l2 [] Nd) as R. rewrite Ei, app_nil_r in R. rewrite R.
+    unfold task_of. cbn [find]. rewrite mem_del_same. cbn [mem]. rewrite N.eqb_refl. cbn [orb].
+    rewrite mem_qids_insort_same. rewrite st_get_upd_same, Eg. cbn [option_map].
+    constructor; Dcbn.
+    + intros _. split; reflexivity.
+    + reflexivity.
+    + intros m' Em r sf Hr. inversion Em; subst m'. rewrite Hsn. apply (gs m Eg r sf Hr).
+    + intros m' Em. inversion Em; subst m'. rewrite Prc. exact Pnd.
+    + intros _. apply gf. apply (touched_task _ t). exact HtkD.
+    + intros r sf Hr. destruct (gl r sf Hr) as [A|[A|[m' [A1 A2]]]]; [left; exact A|right; left; exact A|].
+      rewrite Eg in A1. inversion A1; subst m'. destruct (Pcov r sf Hr A2) as [C|[C|C]].
+      * right. right. exists (f m). split; [reflexivity|rewrite Prc; exact C].
+      * left. exact C.
+      * right. left. exact C.
+    + unfold phase_ok. Dcbn. split; [discriminate|]. split; [|reflexivity].
+      intros m' Em. inversion Em; subst m'. unfold unsettled_all. Dcbn. rewrite Prc. exact Pun.
+  - proj. rewrite <- (app_nil_r (l1 ++ l2)). apply (nodup_rest_nt l1 t l2 [] Nd). left. reflexivity.
+  - proj. apply qids_insort_nodup; [apply (l_queued_nodup s H)|apply not_qd_not_in; exact Pq].
+Qed.
+
+(* ---------- EWrite / EEnqDone / EGet / ERemove / EAnnounce ---------- *)
+Lemma untouched_of_fresh : forall s i, Linv s -> s_next s <= i ->
+  task_of (s_tasks s) i = None /\ mem i (s_active s) = false /\ mem i (s_qids s) = false /\
+  mem i (qids_of (s_queued s)) = false /\ st_get (s_store s) i = None /\
+  deliv_l (g_deliv s) i = [] /\ trip_l (g_fail s) i = [] /\ trip_l (g_acc s) i = [].
+Proof.
+  intros s i H Hn. pose proof (g_fresh _ _ _ (l_good s H i)) as F. unfold touched, D in F. Dcbn_in F.
+  repeat split.
+  - destruct (task_of (s_tasks s) i) eqn:E; [|reflexivity]. exfalso. assert (i < s_next s) by (apply F; left; discriminate). lia.
+  - destruct (mem i (s_active s)) eqn:E; [|reflexivity]. exfalso. assert (i < s_next s) by (apply F; right; left; reflexivity). lia.
+  - destruct (mem i (s_qids s)) eqn:E; [|reflexivity]. exfalso. assert (i < s_next s) by (apply F; right; right; left; reflexivity). lia.
+  - destruct (mem i (qids_of (s_queued s))) eqn:E; [|reflexivity]. exfalso. assert (i < s_next s) by (apply F; right; right; right; left; reflexivity). lia.
+  - destruct (st_get (s_store s) i) eqn:E; [|reflexivity]. exfalso. assert (i < s_next s) by (apply F; right; right; right; right; left; discriminate). lia.
+  - destruct (deliv_l (g_deliv s) i) eqn:E; [reflexivity|]. exfalso. assert (i < s_next s) by (apply F; do 6 right; left; discriminate). lia.
+  - destruct (trip_l (g_fail s) i) eqn:E; [reflexivity|]. exfalso. assert (i < s_next s) by (apply F; do 7 right; discriminate). lia.
+  - destruct (trip_l (g_acc s) i) eqn:E; [reflexivity|]. exfalso. assert (i < s_next s) by (apply F; do 5 right; left; discriminate). lia.
+Qed.
+
+Lemma NoDup_app_snoc' : forall (l : list N) x, NoDup l -> ~ In x l -> NoDup (l ++ [x]).
+Proof.
+  induction l as [|y l IH]; intros x Hn Hx; cbn; [constructor; [intros []|constructor]|].
+  inversion Hn as [|? ? Hy Hl]; subst. constructor.
+  - intro Hi. apply in_app_iff in Hi. destruct Hi as [Hi|[Hi|[]]]; [contradiction|]. subst. apply Hx. left. reflexivity.
+  - apply IH; [assumption|]. intro Hi. apply Hx. right. exact Hi.
+Qed.
+
+Lemma L_write : forall s sender rcpts ts, Linv s -> NoDup rcpts -> Linv (step s (EWrite sender rcpts ts)).
+Proof.
+  intros s sender rcpts ts H Hnd. unfold step. set (n := s_next s).
+  destruct (untouched_of_fresh s n H (N.le_refl _)) as [U1 [U2 [U3 [U4 [U5 [U6 [U7 U8]]]]]]].
+  apply (Linv_local s _ n H).
+  - proj. lia.
+  - intros j Hj. apply D_eq; proj.
+    + rewrite task_of_app. destruct (task_of (s_tasks s) j); [reflexivity|]. unfold task_of. cbn [find task_id].
+      destruct (N.eqb_spec n j); [congruence|reflexivity].
+    + reflexivity.
+    + reflexivity.
+    + reflexivity.
+    + cbn [st_get]. destruct (N.eqb_spec j n); [contradiction|reflexivity].
+    + reflexivity.
+    + reflexivity.
+    + rewrite trip_l_app, trip_l_new_other by congruence. reflexivity.
+  - unfold D. proj. Dcbn. rewrite task_of_app, U1. unfold task_of. cbn [find task_id st_get]. rewrite !N.eqb_refl.
+    rewrite U2, U3, U4, U6, U7. rewrite trip_l_app, trip_l_new_same, U8, app_nil_r.
+    constructor; Dcbn.
+    + discriminate.
+    + discriminate.
+    + intros m Em r sf Hr. inversion Em; subst m. cbn. apply In_map_pair_any in Hr. destruct Hr as [_ E]. symmetry. exact E.
+    + intros m Em. inversion Em; subst m. exact Hnd.
+    + intros _. subst n. lia.
+    + intros r sf Hr. right. right. eexists. split; [reflexivity|]. cbn. apply In_map_pair_any in Hr. tauto.
+    + unfold phase_ok. Dcbn. split; [reflexivity|]. split; [reflexivity|]. eexists. split; [reflexivity|]. cbn.
+      split; [reflexivity|]. split; [reflexivity|]. unfold unsettled_all. Dcbn. intros r _. split; [intros []|intros b []].
+  - proj. unfold all_ids. rewrite map_app. cbn. apply NoDup_app_snoc'.
+    + apply (l_tasks_nodup s H).
+    + apply task_of_none. exact U1.
+  - proj. apply (l_queued_nodup s H).
+Qed.
+
+Lemma L_enq_done : forall s i snd rcpts l1 l2,
+  Linv s -> s_tasks s = l1 ++ TEnq i snd rcpts :: l2 ->
+  mem i (s_active s) = false /\
+  Linv (log_att (set_tasks (set_active (set_tasks s (l1 ++ l2)) (i :: s_active s)) ((l1 ++ l2) ++ [TAttempt i snd rcpts 0]))
+                (mkAtt i rcpts 0 (s_clock s) CEnqueue)).
+Proof.
+  intros s i snd rcpts l1 l2 H E1.
+  destruct (at_member s l1 _ l2 H E1) as [Nd [Htk G]]. cbn [task_id] in Htk, G.
+  destruct G as [q1 q2 gs gn gf gl gp]. unfold phase_ok in gp. unfold D in q1, q2, gs, gn, gf, gl, gp. Dcbn_in q1. Dcbn_in q2. Dcbn_in gs. Dcbn_in gn. Dcbn_in gl. Dcbn_in gp.
+  rewrite Htk in gp. destruct gp as [Pa [Pq [m [Pst [Prc [Psn Pun]]]]]].
+  split; [exact Pa|].
+  apply (Linv_local s _ i H).
+  - proj. lia.
+  - intros j Hj. apply D_eq; unfold log_att; proj; [frame_tasks E1 Hj|fr Hj|fr Hj|fr Hj|fr Hj|fr Hj|fr Hj|fr Hj].
+  - unfold log_att. Dnorm. rewrite (task_of_rest_same l1 (TEnq i snd rcpts) l2 [TAttempt i snd rcpts 0] Nd : task_of ((l1 ++ l2) ++ [TAttempt i snd rcpts 0]) i = _).
+    unfold task_of. cbn [find task_id mem]. rewrite N.eqb_refl. cbn [orb].
+    constructor; Dcbn.
+    + intro Hq. rewrite Pq in Hq. discriminate.
+    + exact q2.
+    + exact gs.
+    + exact gn.
+    + intros _. apply gf. apply (touched_task _ (TEnq i snd rcpts)). exact Htk.
+    + exact gl.
+    + unfold phase_ok. Dcbn. split; [reflexivity|]. split; [exact Pq|]. exists m. auto.
+  - unfold log_att. proj. apply (nodup_rest_nt l1 (TEnq i snd rcpts) l2 [TAttempt i snd rcpts 0] Nd). right. eexists. split; reflexivity.
+  - unfold log_att. proj. apply (l_queued_nodup s H).
+Qed.
+
+Lemma L_get : forall s i c l1 l2,
+  Linv s -> s_tasks s = l1 ++ TDequeue i c :: l2 ->
+  Linv (match st_get (s_store s) i with
+        | None => set_active (set_tasks s (l1 ++ l2)) (del i (s_active s))
+        | Some m => log_att (set_tasks (set_tasks s (l1 ++ l2)) ((l1 ++ l2) ++ [TAttempt i (m_sender m) (m_rcpts m) (m_attempts m)]))
+                            (mkAtt i (m_rcpts m) (m_attempts m) (s_clock s) c)
+        end) /\
+  (forall m, st_get (s_store s) i = Some m -> unsettled_all (D s i) (m_rcpts m)).
+Proof.
+  intros s i c l1 l2 H E1.
+  destruct (at_member s l1 _ l2 H E1) as [Nd [Htk G]]. cbn [task_id] in Htk, G.
+  destruct G as [q1 q2 gs gn gf gl gp]. unfold phase_ok in gp. unfold D in q1, q2, gs, gn, gf, gl, gp. Dcbn_in q1. Dcbn_in q2. Dcbn_in gs. Dcbn_in gn. Dcbn_in gl. Dcbn_in gp.
+  rewrite Htk in gp. destruct gp as [Pa [Pq Pun]].
+  split; [|exact Pun].
+  destruct (st_get (s_store s) i) as [m|] eqn:Eg.
+  - apply (Linv_local s _ i H).
+    + unfold log_att. proj. lia.
+    + intros j Hj. apply D_eq; unfold log_att; proj; [frame_tasks E1 Hj|fr Hj|fr Hj|fr Hj|fr Hj|fr Hj|fr Hj|fr Hj].
+    + unfold log_att. Dnorm.
+      rewrite (task_of_rest_same l1 (TDequeue i c) l2 [TAttempt i (m_sender m) (m_rcpts m) (m_attempts m)] Nd
+               : task_of ((l1 ++ l2) ++ [TAttempt i (m_sender m) (m_rcpts m) (m_attempts m)]) i = _).
+      unfold task_of. cbn [find task_id]. rewrite N.eqb_refl. rewrite Eg.
+      constructor; Dcbn; [exact q1|exact q2|exact gs|exact gn| |exact gl| ].
+      * intros _. apply gf. apply (touched_task _ (TDequeue i c)). exact Htk.
+      * unfold phase_ok. Dcbn. split; [exact Pa|]. split; [exact Pq|]. exists m.
+        split; [reflexivity|]. split; [reflexivity|]. split; [reflexivity|]. apply (Pun m eq_refl).
+    + unfold log_att. proj. apply (nodup_rest_nt l1 (TDequeue i c) l2 [TAttempt i (m_sender m) (m_rcpts m) (m_attempts m)] Nd). right. eexists. split; reflexivity.
+    + unfold log_att. proj. apply (l_queued_nodup s H).
+  - apply (Linv_local s _ i H).
+    + proj. lia.
+    + intros j Hj. apply D_eq; proj; [|fr Hj|fr Hj|fr Hj|fr Hj|fr Hj|fr Hj|fr Hj].
+      rewrite E1. rewrite <- (app_nil_r (l1 ++ l2)). apply task_of_rest_other; [cbn; congruence|intros x []].
+    + Dnorm. pose proof (task_of_rest_same l1 (TDequeue i c) l2 [] Nd) as R. cbn [task_id] in R. rewrite app_nil_r in R. rewrite R.
+      unfold task_of. cbn [find]. rewrite mem_del_same, Eg.
+      constructor; Dcbn.
+      * intro Hq. rewrite Pq in Hq. discriminate.
+      * exact q2.
+      * intros m Em. discriminate.
+      * intros m Em. discriminate.
+      * intros _. apply gf. apply (touched_task _ (TDequeue i c)). exact Htk.
+      * exact gl.
+      * unfold phase_ok. Dcbn. split; [reflexivity|]. split; [intros m Em; discriminate|]. intro Hx. contradiction.
+    + proj. rewrite <- (app_nil_r (l1 ++ l2)). apply (nodup_rest_nt l1 (TDequeue i c) l2 [] Nd). left. reflexivity.
+    + proj. apply (l_queued_nodup s H).
+Qed.
+
+Lemma L_remove : forall s i t l1 l2,
+  Linv s -> s_tasks s = l1 ++ t :: l2 -> is_rm i t = true ->
+  Linv (mkState (st_del (s_store s) i) (s_queued s) (s_qids s) (s_active s) (l1 ++ l2) (s_sched s) (s_wake s)
+                (s_clock s) (s_next s) (g_acc s) (g_deliv s) (g_fail s) (g_atts s) (i :: g_removed s)) /\
+  all_settled (D s i).
+Proof.
+  intros s i t l1 l2 H E1 Hrm. apply is_rm_id in Hrm. destruct Hrm as [Ei [_ Hr]].
+  destruct (at_member s l1 _ l2 H E1) as [Nd [Htk G]]. rewrite Ei in Htk, G.
+  destruct G as [q1 q2 gs gn gf gl gp]. unfold phase_ok in gp. unfold D in q1, q2, gs, gn, gf, gl, gp. Dcbn_in q1. Dcbn_in q2. Dcbn_in gs. Dcbn_in gn. Dcbn_in gl. Dcbn_in gp.
+  rewrite Htk in gp.
+  assert (P : (mem i (s_active s) = true -> True) /\ mem i (qids_of (s_queued s)) = false /\ all_settled (D s i)).
+  { destruct t; cbn in Hr; try discriminate; destruct gp as [Pa [Pq Pall]]; (split; [auto|split; [exact Pq|unfold all_settled, D; Dcbn; exact Pall]]). }
+  destruct P as [_ [Pq Pall]]. split; [|exact Pall].
+  assert (Pact : d_task (D s i) = Some t -> (mem i (s_active s) = true -> st_get (st_del (s_store s) i) i = None)).
+  { intros _ _. apply st_get_del_same. }
+  apply (Linv_local s _ i H).
+  - proj. lia.
+  - intros j Hj. apply D_eq; proj; [|fr Hj|fr Hj|fr Hj|fr Hj|fr Hj|fr Hj|fr Hj].
+    rewrite E1. rewrite <- (app_nil_r (l1 ++ l2)). apply task_of_rest_other; [congruence|intros x []].
+  - unfold D. proj. Dcbn. pose proof (task_of_rest_same l1 t l2 [] Nd) as R. rewrite Ei, app_nil_r in R. rewrite R.
+    unfold task_of. cbn [find]. rewrite st_get_del_same.
+    constructor; Dcbn.
+    + exact q1.
+    + exact q2.
+    + intros m Em. discriminate.
+    + intros m Em. discriminate.
+    + intros _. apply gf. apply (touched_task _ t). unfold D. Dcbn. exact Htk.
+    + intros r sf Hr0. unfold all_settled, D in Pall. Dcbn_in Pall. destruct (Pall r sf Hr0) as [A|A]; [left; exact A|right; left; exact A].
+    + unfold phase_ok. Dcbn. split; [reflexivity|]. split; [intros m Em; discriminate|]. intro Hx. contradiction.
+  - proj. rewrite <- (app_nil_r (l1 ++ l2)). apply (nodup_rest_nt l1 t l2 [] Nd). left. reflexivity.
+  - proj. apply (l_queued_nodup s H).
+Qed.
+
+Lemma L_announce : forall s ts i, Linv s -> ev_ok s (EAnnounce ts i) -> Linv (add_queued s ts i).
+Proof.
+  intros s ts i H [Hlt Hok].
+  destruct (mem i (s_qids s) || mem i (s_active s)) eqn:Eb.
+  - unfold add_queued. rewrite Eb. exact H.
+  - apply orb_false_iff in Eb. destruct Eb as [Eq Ea]. rewrite aq_new by assumption.
+    pose proof (l_good s H i) as G. destruct G as [q1 q2 gs gn gf gl gp]. unfold phase_ok in gp. unfold D in q1, q2, gs, gn, gf, gl, gp. Dcbn_in q1. Dcbn_in q2. Dcbn_in gs. Dcbn_in gn. Dcbn_in gl. Dcbn_in gp.
+    assert (Pq : mem i (qids_of (s_queued s)) = false).
+    { destruct (mem i (qids_of (s_queued s))) eqn:E; [|reflexivity]. destruct (q1 eq_refl) as [A _]. rewrite A in Eq. discriminate. }
+    assert (Htk : task_of (s_tasks s) i = None).
+    { destruct (task_of (s_tasks s) i) as [t|] eqn:Et; [|reflexivity]. exfalso.
+      destruct t; try (destruct Hok); try (destruct gp as [Pa _]; rewrite Pa in Ea; discriminate).
+      - destruct dl as [[all res]|]; destruct gp as [Pa _]; rewrite Pa in Ea; discriminate.
+      - destruct dl as [[all res]|]; destruct gp as [Pa _]; rewrite Pa in Ea; discriminate. }
+    rewrite Htk in gp. destruct gp as [P1 [P2 P3]].
+    apply (Linv_local s _ i H).
+    + proj. lia.
+    + intros j Hj. apply D_eq; proj; [reflexivity|reflexivity|apply mem_cons_other; exact Hj|apply mem_qids_insort_other; exact Hj|reflexivity|reflexivity|reflexivity|reflexivity].
+    + unfold D. proj. Dcbn. rewrite Htk, Ea. cbn [mem]. rewrite N.eqb_refl. cbn [orb]. rewrite mem_qids_insort_same.
+      constructor; Dcbn.
+      * intros _. split; reflexivity.
+      * reflexivity.
+      * exact gs.
+      * exact gn.
+      * intros _. exact Hlt.
+      * exact gl.
+      * unfold phase_ok. Dcbn. split; [discriminate|]. split; [exact P2|]. reflexivity.
+    + proj. apply (l_tasks_nodup s H).
+    + proj. apply qids_insort_nodup; [apply (l_queued_nodup s H)|apply not_qd_not_in; exact Pq].
+Qed.
+
+(* ---------- ETick / EFlush: a batch of timetable entries is dispatched ---------- *)
+Lemma dispatch_not_active : forall s i c, mem i (s_active s) = false ->
+  dispatch s i c = set_tasks (set_active s (i :: s_active s)) (s_tasks s ++ [TDequeue i c]).
+Proof. intros s i c H. unfold dispatch. rewrite H. reflexivity. Qed.
+
+Lemma fold_dispatch_fresh : forall (f : time * id -> cause) d s,
+  (forall e, In e d -> mem (snd e) (s_active s) = false) -> NoDup (map snd d) ->
+  fold_left (fun s e => dispatch s (snd e) (f e)) d s =
+  set_tasks (set_active s (rev (map snd d) ++ s_active s)) (s_tasks s ++ map (fun e => TDequeue (snd e) (f e)) d).
+Proof.
+  induction d as [|e d IH]; intros s Ha Hn; cbn [fold_left map rev].
+  - cbn. rewrite app_nil_r. destruct s; reflexivity.
+  - pose proof (dispatch_not_active s (snd e) (f e) (Ha e (or_introl eq_refl))) as Ed.
+    inversion Hn as [|? ? Hx Hn']; subst.
+    transitivity (fold_left (fun s e => dispatch s (snd e) (f e)) d
+                    (set_tasks (set_active s (snd e :: s_active s)) (s_tasks s ++ [TDequeue (snd e) (f e)]))).
+    { f_equal. exact Ed. }
+    rewrite IH.
+    + proj. rewrite <- !app_assoc. cbn [app]. unfold set_tasks, set_active. cbn. reflexivity.
+    + intros e' He'. proj. cbn [mem]. rewrite (Ha e' (or_intror He')).
+      destruct (N.eqb_spec (snd e') (snd e)) as [E|E]; [|reflexivity].
+      exfalso. apply Hx. rewrite <- E. apply in_map. exact He'.
+    + exact Hn'.
+Qed.
+
+Lemma mem_app : forall x a b, mem x (a ++ b) = mem x a || mem x b.
+Proof. induction a as [|y a IH]; intro b; cbn; [reflexivity|]. rewrite IH. apply orb_assoc. Qed.
+
+Lemma mem_rev : forall x l, mem x (rev l) = mem x l.
+Proof.
+  intros x l. destruct (mem x l) eqn:E.
+  - apply mem_In. apply -> in_rev. apply mem_In. exact E.
+  - apply mem_false_In. intro Hi. apply in_rev in Hi. apply mem_In in Hi. congruence.
+Qed.
+
+Lemma task_of_map_dq : forall (f : time * id -> cause) d j,
+  task_of (map (fun e => TDequeue (snd e) (f e)) d) j =
+  match find (fun e => snd e =? j) d with Some e => Some (TDequeue (snd e) (f e)) | None => None end.
+Proof.
+  intros f d j. unfold task_of. induction d as [|e d IH]; cbn [map find task_id]; [reflexivity|].
+  unfold id, time in *. destruct (N.eqb (snd e) j) eqn:E; [reflexivity|exact IH].
+Qed.
+
+Lemma nodup_app_inv : forall (a b : list N), NoDup (a ++ b) ->
+  NoDup a /\ NoDup b /\ (forall x, In x a -> ~ In x b).
+Proof.
+  induction a as [|y a IH]; intros b H; cbn in *.
+  - split; [constructor|]. split; [exact H|intros x []].
+  - inversion H as [|? ? Hy Hab]; subst. destruct (IH b Hab) as [A [B C]]. split; [|split; [exact B|]].
+    + constructor; [|exact A]. intro Hi. apply Hy. apply in_app_iff. left. exact Hi.
+    + intros x [Hx|Hx] Hb; [subst; apply Hy; apply in_app_iff; right; exact Hb|apply (C x Hx Hb)].
+Qed.
+
+Lemma nodup_app_intro : forall (a b : list N), NoDup a -> NoDup b -> (forall x, In x b -> ~ In x a) -> NoDup (a ++ b).
+Proof.
+  induction a as [|y a IH]; intros b Ha Hb Hd; cbn; [exact Hb|].
+  inversion Ha as [|? ? Hy Ha']; subst. constructor.
+  - intro Hi. apply in_app_iff in Hi. destruct Hi as [Hi|Hi]; [contradiction|]. apply (Hd y Hi). left. reflexivity.
+  - apply IH; [exact Ha'|exact Hb|]. intros x Hx Hi. apply (Hd x Hx). right. exact Hi.
+Qed.
+
+Lemma L_dispatch_all : forall (f : time * id -> cause) d r s,
+  Linv s -> s_queued s = d ++ r ->
+  Linv (set_queue (fold_left (fun s e => dispatch s (snd e) (f e)) d s) r (qids_of r)).
+Proof.
+  intros f d r s H Eq.
+  pose proof (l_queued_nodup s H) as Nq. rewrite Eq in Nq. unfold qids_of in Nq. rewrite map_app in Nq.
+  destruct (nodup_app_inv _ _ Nq) as [Nd_d [Nd_r Hdisj]].
+  (* what the invariant says about the ids being dispatched *)
+  assert (Hd : forall e, In e d ->
+            mem (snd e) (s_active s) = false /\ task_of (s_tasks s) (snd e) = None /\
+            (forall m, st_get (s_store s) (snd e) = Some m -> unsettled_all (D s (snd e)) (m_rcpts m))).
+  { intros e He. pose proof (l_good s H (snd e)) as G. destruct G as [q1 q2 gs gn gf gl gp].
+    unfold phase_ok in gp. unfold D in q1, gp. Dcbn_in q1. Dcbn_in gp.
+    assert (Hqd : mem (snd e) (qids_of (s_queued s)) = true).
+    { apply mem_In. rewrite Eq. unfold qids_of. rewrite map_app. apply in_app_iff. left. apply in_map. exact He. }
+    destruct (q1 Hqd) as [_ Ha]. split; [exact Ha|].
+    destruct (task_of (s_tasks s) (snd e)) as [t|] eqn:Et.
+    - exfalso. destruct t; try (destruct gp as [_ [Pq _]]; rewrite Pq in Hqd; discriminate).
+      + destruct dl as [[all res]|]; destruct gp as [_ [Pq _]]; rewrite Pq in Hqd; discriminate.
+      + destruct dl as [[all res]|]; destruct gp as [_ [Pq _]]; rewrite Pq in Hqd; discriminate.
+    - split; [reflexivity|]. destruct gp as [_ [P2 _]]. unfold unsettled_all, D. Dcbn. exact P2. }
+  rewrite fold_dispatch_fresh; [|intros e He; apply (proj1 (Hd e He))|exact Nd_d].
+  constructor.
+  - intro j. unfold D. proj. Dcbn.
+    rewrite task_of_app, task_of_map_dq, mem_app, mem_rev.
+    destruct (find (fun e => snd e =? j) d) as [e|] eqn:Ef.
+    + (* j is being dispatched *)
+      apply find_some in Ef. destruct Ef as [He Ej]. apply N.eqb_eq in Ej. subst j.
+      destruct (Hd e He) as [Ha [Ht Hu]]. rewrite Ht.
+      assert (Hin : mem (snd e) (map snd d) = true) by (apply mem_In; apply in_map; exact He).
+      rewrite Hin. cbn [orb].
+      assert (Hnr : mem (snd e) (qids_of r) = false) by (apply mem_false_In; apply Hdisj; apply in_map; exact He).
+      rewrite Hnr.
+      pose proof (l_good s H (snd e)) as G. destruct G as [q1 q2 gs gn gf gl gp].
+      unfold D in gs, gn, gf, gl. Dcbn_in gs. Dcbn_in gn. Dcbn_in gl.
+      constructor; Dcbn.
+      * discriminate.
+      * discriminate.
+      * exact gs.
+      * exact gn.
+      * intros _. apply gf. unfold touched, D. Dcbn. right. right. right. left.
+        apply mem_In. rewrite Eq. unfold qids_of. rewrite map_app. apply in_app_iff. left. apply in_map. exact He.
+      * exact gl.
+      * unfold phase_ok. Dcbn. split; [reflexivity|]. split; [reflexivity|]. exact Hu.
+    + (* j untouched: only queued_ids is recomputed, to the same membership *)
+      assert (Hnd : mem j (map snd d) = false).
+      { apply mem_false_In. intro Hi. apply in_map_iff in Hi. destruct Hi as [e [E He]].
+        apply (find_none _ _ Ef e) in He. rewrite E, N.eqb_refl in He. discriminate. }
+      rewrite Hnd. cbn [orb].
+      pose proof (l_good s H j) as G.
+      assert (Eqd : mem j (qids_of (s_queued s)) = mem j (qids_of r)).
+      { rewrite Eq. unfold qids_of. rewrite map_app, mem_app, Hnd. reflexivity. }
+      assert (Eqi : mem j (s_qids s) = mem j (qids_of r)).
+      { rewrite <- Eqd. destruct G as [q1 q2 _ _ _ _ _]. unfold D in q1, q2. Dcbn_in q1. Dcbn_in q2.
+        destruct (mem j (s_qids s)) eqn:E1; destruct (mem j (qids_of (s_queued s))) eqn:E2; try reflexivity.
+        - rewrite (q2 eq_refl) in E2. discriminate.
+        - destruct (q1 eq_refl) as [A _]. rewrite A in E1. discriminate. }
+      destruct (task_of (s_tasks s) j) eqn:Et; unfold D in G; rewrite Et, Eqd, Eqi in G; exact G.
+  - proj. unfold all_ids. rewrite map_app, map_map. cbn [task_id].
+    apply nodup_app_intro; [apply (l_tasks_nodup s H)|exact Nd_d|].
+    intros x Hx Hi. apply in_map_iff in Hx. destruct Hx as [e [E He]]. subst x.
+    destruct (Hd e He) as [_ [Ht _]]. apply task_of_none in Ht. contradiction.
+  - proj. exact Nd_r.
 Qed.
